@@ -46,3 +46,5 @@ CLAIM = dict(
     technique=('Lean 4 compiler-correctness proof (induction on evaluation fuel) + differential correspondence of the '
                'compiled model against the real compiler and VM + independent reference evaluator as oracle'),
 )
+
+CLAIM["text"] += ' Function values include the foreign list/string functions (called through variables, parameters and conditionals), so argument order through `CallCallable` is compared for foreign functions too.'
